@@ -159,6 +159,15 @@ DistAllOK(e) ==
      /\ (q.b = e.a => q.r = E_SUCCESS /\ q.d = 0)
      /\ (CellOf(q.b) \in L[2] => q.r = E_SUCCESS /\ q.d = 1)
 
+\* many (far) targets from one origin, all within e.k steps: one BFS to radius k
+DistFarOK(e) ==
+  LET ca == CellOf(e.a)   L == Layers(ca, e.k) IN
+  \A i \in 1..Len(e.t) :
+     LET q == e.t[i]   dd == DistIn(L, CellOf(q.b)) IN
+     /\ ValidCell(q.b) /\ dd <= e.k
+     /\ (q.r = E_SUCCESS => q.d = dd)
+     /\ (q.r = E_SUCCESS /\ q.rr = E_SUCCESS => q.d = q.dr)
+
 \* cellToLocalIj(o, h) then localIjToCell(o, that)
 LocalIjOK(e) == (e.r = E_SUCCESS /\ e.rb = E_SUCCESS) => e.back = e.h
 \* localIjToCell(o, (i,j)) then cellToLocalIj(o, that)
@@ -205,6 +214,7 @@ EvOK(e) ==
        [] e.e = "dist"          -> DistOK(e)
        [] e.e = "distMismatch"  -> DistMismatchOK(e)
        [] e.e = "distAll"       -> DistAllOK(e)
+       [] e.e = "distFar"       -> DistFarOK(e)
        [] e.e = "localIj"       -> LocalIjOK(e)
        [] e.e = "ijToCell"      -> IjToCellOK(e)
        [] e.e = "ijNbhd"        -> IjNbhdOK(e)
